@@ -2,6 +2,8 @@
 builder preconditions, unwraps on sort data; accepted implies typed."""
 import re
 from ..tree import *  # noqa
+from .. import semterm
+from .. import norm as norm_
 from ..flow import Index
 from .. import callgraph, panics, builders
 from . import c08
@@ -115,6 +117,8 @@ def token_guarantee_sites(f):
                             ok = False
                 if ok and dflt is not None:
                     out.append((n, _PerOp(v["scrut"], tbl, dflt)))
+            elif v.get("k") == "if":
+                out.append((n, _SpecExpr(v)))
     return out
 
 
@@ -196,6 +200,18 @@ def token_indices(ctx, reach, fns):
         ctx.note("R18.2: the two token reads inside require_at_least_n_tokens (tokens[1], tokens.last()) are reached only after parse_line matched tokens.get(1) as Some")
 
 
+def _arm_literals(n, ix):
+    """(match node, [string literals]) of the innermost literal-only string-match arm around n"""
+    for a in ix.ancestors(n):
+        if a.get("k") == "match":
+            for arm in a["arms"]:
+                if contains(arm["body"], n):
+                    alts = pat_alts(arm["pat"])
+                    if alts and all(x.get("k") == "plit" and isinstance(x.get("v"), str) for x in alts) and "guard" not in arm:
+                        return a, [x["v"] for x in alts]
+    return None, None
+
+
 def correlated_guarantee(r, n, ix):
     """r sits in `if <cond on X> { require(..)? }` and n in a string-match arm on the same X whose literals all satisfy cond"""
     the_if = None
@@ -210,22 +226,40 @@ def correlated_guarantee(r, n, ix):
     # the `if` itself must dominate n
     if not ix.dominates(the_if, n):
         return False
-    c = peel(the_if["cond"])
-    subj = lit = kind = None
-    if c.get("k") == "mcall" and c["name"] == "starts_with" and peel(c["args"][0]).get("lk") == "str":
-        subj, lit, kind = show(peel(c["recv"])), peel(c["args"][0])["v"], "prefix"
-    elif c.get("k") == "binary" and c["op"] == "==" and peel(c["r"]).get("lk") == "str":
-        subj, lit, kind = show(peel(c["l"])), peel(c["r"])["v"], "eq"
-    if subj is None:
+    m, lits = _arm_literals(n, ix)
+    if not lits:
         return False
-    for a in ix.ancestors(n):
-        if a.get("k") == "match" and show(peel(a["scrut"])) == subj:
-            for arm in a["arms"]:
-                if contains(arm["body"], n):
-                    lits = [alt.get("v") for alt in pat_alts(arm["pat"]) if alt.get("k") == "plit"]
-                    if lits and len(lits) == len(pat_alts(arm["pat"])):
-                        return all((l.startswith(lit) if kind == "prefix" else l == lit) for l in lits)
-    return False
+    ex = semterm.Extractor({}, lambda n_, e_: None)
+    for l in lits:
+        ex.spec = lambda e_, l=l: l if _same_subject(e_, m["scrut"]) else None
+        if ex.decide(the_if["cond"]) is not True:
+            return False
+    return True
+
+
+class _SpecExpr:
+    """a guarantee whose size is an expression of the operator token (`if op.starts_with("const") { 4 } else { 3 }`): at a site inside a
+    string-match arm on that token, the smallest value over the arm's operators"""
+
+    def __init__(self, e):
+        self.e = e
+
+    def at(self, site, ix):
+        m, lits = _arm_literals(site, ix)
+        if not lits:
+            return 0
+        ex = semterm.Extractor({}, lambda n_, e_: None)
+        vals = []
+        for l in lits:
+            ex.spec = lambda e_, l=l: l if _same_subject(e_, m["scrut"]) else None
+            try:
+                v = ex.ev(self.e, {})
+            except semterm.Opaque:
+                return 0
+            if not (isinstance(v, tuple) and v[0] == "lit" and isinstance(v[1], int)):
+                return 0
+            vals.append(v[1])
+        return min(vals)
 
 
 def dominates_with_try(r, ix):
@@ -376,25 +410,41 @@ def sort_table_nonzero(ctx, fns):
     all_ins = [n for _, g in fns.items() for n in walk(g["body"]) if n.get("k") == "mcall" and n["name"] == "insert" and show(peel(n["recv"])).endswith("type_map")]
     if len(ins) != len(all_ins) or not ins:
         return False
+    def alternatives(e, depth=0):
+        """the constructor expressions a value can be (through lets, match / if arms; diverging arms excluded)"""
+        e = norm_.tail_value(strip_try(e))
+        if depth > 6:
+            return [e]
+        if e.get("k") == "local":
+            init = simple_let_init(defs, e["id"])
+            return alternatives(init, depth + 1) if init is not None else [e]
+        if e.get("k") == "match":
+            out_ = []
+            for arm in e["arms"]:
+                if arm["body"].get("ty") == "!" or norm_._diverges(arm["body"]):
+                    continue
+                out_ += alternatives(arm["body"], depth + 1)
+            return out_
+        if e.get("k") == "if" and "else" in e:
+            return [x for b_ in (e["then"], e["else"]) if not norm_._diverges(b_) for x in alternatives(b_, depth + 1)]
+        if e.get("k") in ("blockexpr",) and "tail" in e["b"]:
+            return alternatives(e["b"]["tail"], depth + 1)
+        return [e]
     for n in ins:
-        v = peel(n["args"][1])
-        if v.get("k") == "ctor" and callee(v).endswith("Type::BV"):
-            w = peel(v["args"][0])
-            ok = False
-            for st in ix.nodes:
-                if st.get("k") == "if" and ix.dominates(st, n) and show(peel(st["cond"])).replace(" ", "") in ("(%s==0)" % show(w), "(0==%s)" % show(w)) and any(x.get("k") == "return" for x in walk(st["then"])):
-                    ok = True
-            if not ok:
-                return False
-        elif v.get("k") == "ctor" and callee(v).endswith("Type::Array"):
-            ws = [x for x in walk(v) if x.get("k") == "local"]
-            for x in ws:
-                init = simple_let_init(defs, x["id"])
-                cc = strip_try(init) if init is not None else {}
-                if not (cc.get("k") == "mcall" and callee(cc) == P + "get_bv_width"):
+        for v in alternatives(n["args"][1]):
+            if v.get("k") == "ctor" and callee(v).endswith("Type::BV"):
+                w = peel(v["args"][0])
+                if not (w.get("k") == "local" and norm_.nonzero_at(ix, v, w["id"])):
                     return False
-        else:
-            return False
+            elif v.get("k") == "ctor" and callee(v).endswith("Type::Array"):
+                ws = [x for x in walk(v) if x.get("k") == "local"]
+                for x in ws:
+                    init = simple_let_init(defs, x["id"])
+                    cc = strip_try(init) if init is not None else {}
+                    if not (cc.get("k") == "mcall" and callee(cc) == P + "get_bv_width"):
+                        return False
+            else:
+                return False
     return True
 
 
